@@ -980,7 +980,7 @@ func raceReports(dir string, anchors []string) (int, map[string]string) {
 					hit = true
 				}
 			}
-			if !strings.Contains(blk, "/repo/") || !accessInRepo(blk) {
+			if !strings.Contains(blk, repoPrefix()) || !accessInRepo(blk) {
 				hit = false // both accesses are harness code
 			}
 			if !hit {
@@ -1005,7 +1005,7 @@ func accessInRepo(blk string) bool {
 	for i, l := range lines {
 		if strings.HasPrefix(l, "Write at") || strings.HasPrefix(l, "Read at") || strings.HasPrefix(l, "Previous write at") || strings.HasPrefix(l, "Previous read at") ||
 			strings.HasPrefix(l, "Atomic write at") || strings.HasPrefix(l, "Previous atomic write at") {
-			if i+2 < len(lines) && strings.Contains(lines[i+2], "/repo/") {
+			if i+2 < len(lines) && strings.Contains(lines[i+2], repoPrefix()) {
 				return true
 			}
 			// runtime helpers (mapaccess, memmove, ...) sit above the real access
@@ -1013,7 +1013,7 @@ func accessInRepo(blk string) bool {
 				if strings.Contains(lines[j], "/usr/lib/go") || strings.Contains(lines[j], "/go/src/") {
 					continue
 				}
-				if strings.Contains(lines[j], "/repo/") {
+				if strings.Contains(lines[j], repoPrefix()) {
 					return true
 				}
 				break
@@ -1032,7 +1032,7 @@ func raceSig(blk string) string {
 	for i, l := range lines {
 		if strings.HasPrefix(l, "Write at") || strings.HasPrefix(l, "Read at") || strings.HasPrefix(l, "Previous write at") || strings.HasPrefix(l, "Previous read at") {
 			for j := i + 1; j < len(lines) && strings.TrimSpace(lines[j]) != ""; j++ {
-				if strings.Contains(lines[j], "/repo/") && j > 0 {
+				if strings.Contains(lines[j], repoPrefix()) && j > 0 {
 					fn := strings.TrimSpace(lines[j-1])
 					if k := strings.LastIndexByte(fn, '('); k > 0 { // strip the argument list only
 						fn = fn[:k]
@@ -1046,4 +1046,19 @@ func raceSig(blk string) string {
 	}
 	sort.Strings(fr)
 	return strings.Join(fr, "~")
+}
+
+// repoPrefix is the path prefix of the repository under test in stack traces ("/repo/", or the
+// scratch copy VERIF_MODFILE points to in calibration runs).
+func repoPrefix() string {
+	if mf := os.Getenv("VERIF_MODFILE"); mf != "" {
+		if b, err := os.ReadFile(mf); err == nil {
+			for _, l := range strings.Split(string(b), "\n") {
+				if i := strings.Index(l, "go-quai => "); i >= 0 {
+					return strings.TrimRight(strings.TrimSpace(l[i+len("go-quai => "):]), "/") + "/"
+				}
+			}
+		}
+	}
+	return "/repo/"
 }
